@@ -101,9 +101,128 @@ def log_conditional_y_ob(prog, cls, ctx, as_callable):
               "integrate_log_conditional_y(p_x)(y) == E_{p(x)}[ln N(y; Mx+b, Sigma)] (callable and evaluated forms)", anchor, group="logcond_y")
 
 
+# ------------------------------------------------------------------ feature models (RBF / squared exponential)
+def _density_natural(S, mu):
+    """natural parameters (Lambda, nu, ln_beta, ln_det_Sigma) of the normalised density N(mu, S) (reference formulas)."""
+    L, lds = nf.inverse(S)
+    nu = nf.einsum("rab,rb->ra", L, mu)
+    Dd = S.shape[-1]
+    lnZ = nf.scale(nf.add(nf.add(nf.einsum("ra,rab,rb->r", nu, S, nu), nf.const(Dd * LOG2PI)), lds), D(1) / 2)
+    return L, nu, nf.neg(lnZ), lds
+
+
+def _embed_kernel(Lk, nk, Dy, Dx):
+    """kernel parameters over x placed in the joint space z = (y, x)."""
+    tot = Dy + Dx
+    Lj = nf.embed_axis(nf.embed_axis(Lk, 1, Dy, tot), 2, Dy, tot)
+    nj = nf.embed_axis(nk, 1, Dy, tot)
+    return Lj, nj
+
+
+def kernel_expectations(c, S, mu, Dd, joint=None):
+    """for the density N(mu, S) over x (or over z=(y,x) with the kernels embedded when joint=(Dy,Dx)):
+    returns E[k_i] [R,Dk], E[k_i * z] [R,Dk,Dd], E[k_i k_j] [R,Dk,Dk] by the product-measure formulas
+    (Sherman-Morrison form for rank-one kernels)."""
+    from .c16 import rank_one_update, mass_mean_cov, mass_and_mean
+    from .drivers import flat2
+    k = c.f["k_func"]
+    R = S.shape[0]
+    L, nu, lb, lds = _density_natural(S, mu)
+    if k.cls == "OneRankFactor":
+        v, g, nuk, lbk = k.f["v"], k.f["g"], k.f["nu"], k.f["ln_beta"]
+        if joint:
+            v = nf.embed_axis(v, 1, joint[0], joint[0] + joint[1])
+            nuk = nf.embed_axis(nuk, 1, joint[0], joint[0] + joint[1])
+        S1, l1, n1, b1 = rank_one_update(S, lds, nu, lb, v, g, nuk, lbk)
+        m1, mu1 = mass_mean_cov(S1, l1, n1, b1, Dd)
+        S2, l2, n2, b2 = rank_one_update(S1, l1, n1, b1, v, g, nuk, lbk)
+        m2, _ = mass_mean_cov(S2, l2, n2, b2, Dd)
+        return m1, nf.mul(nf.expand_dims(m1, ["k", "k", None]), mu1), m2
+    Lk, nk, bk = k.f["Lambda"], k.f["nu"], k.f["ln_beta"]
+    if joint:
+        Lk, nk = _embed_kernel(Lk, nk, joint[0], joint[1])
+    Dk = bk.shape[0]
+    L1 = flat2(nf.add(nf.expand_dims(L, ["k", None]), nf.expand_dims(Lk, [None])))
+    n1 = flat2(nf.add(nf.expand_dims(nu, ["k", None]), nf.expand_dims(nk, [None])))
+    b1 = flat2(nf.add(nf.expand_dims(lb, ["k", None]), nf.expand_dims(bk, [None])), 2)
+    m1, mu1 = mass_and_mean(L1, n1, b1)
+    Ek = nf.reshape(m1, [R, Dk])
+    Ekz = nf.reshape(nf.mul(nf.expand_dims(m1, ["k", None]), mu1), [R, Dk, Dd])
+    L2 = flat2(nf.add(nf.add(nf.expand_dims(L, ["k", None, None]), nf.expand_dims(Lk, [None, "k", None])), nf.expand_dims(Lk, [None, None])), 3)
+    n2 = flat2(nf.add(nf.add(nf.expand_dims(nu, ["k", None, None]), nf.expand_dims(nk, [None, "k", None])), nf.expand_dims(nk, [None, None])), 3)
+    b2 = flat2(nf.add(nf.add(nf.expand_dims(lb, ["k", None, None]), nf.expand_dims(bk, [None, "k", None])), nf.expand_dims(bk, [None, None])), 3)
+    m2, _ = mass_and_mean(L2, n2, b2)
+    return Ek, Ekz, nf.reshape(m2, [R, Dk, Dk])
+
+
+def feature_logcond_ob(cls):
+    def run():
+        from .approx import make_approx
+        I = build.new_interp()
+        c = make_approx(I, cls, "c")
+        R, Dy, Dx, Dk = sym("R"), sym("Dy"), sym("Dx"), sym("Dk")
+        q = build.pdf(I, R, Dy + Dx, "q")
+        got = I.call_method(c, "integrate_log_conditional", [q])
+        M, b, L, lds = c.f["M"], c.f["b"], c.f["Lambda"], c.f["ln_det_Sigma"]
+        Mlin = nf.slice_axis(M, 2, 0, Dx)
+        Mk = nf.slice_axis(M, 2, Dx, Dx + Dk)
+        A, a = joint_A(Mlin, b, Dy, Dx)
+        LA = nf.einsum("ryw,rwz->ryz", L, A)
+        La = nf.einsum("ryw,rw->ry", L, a)
+        Q = _inner([(A, a), (LA, La)], q.f["mu"], q.f["Sigma"])
+        # E[(Mk k)' Lambda (A z + a)] = sum_k Mk[:,k]' ( Lambda A E[k_k z] + Lambda a E[k_k] )
+        Ek, Ekz, _ = kernel_expectations(c, q.f["Sigma"], q.f["mu"], Dy + Dx, joint=(Dy, Dx))
+        lin = nf.add(nf.einsum("oyk,oyz,rkz->r", Mk, LA, Ekz), nf.einsum("oyk,oy,rk->r", Mk, La, Ek))
+        # E[k' Mk' Lambda Mk k] under the x-marginal of q
+        Sxx = nf.slice_axis(nf.slice_axis(q.f["Sigma"], 1, Dy, Dy + Dx), 2, Dy, Dy + Dx)
+        mx = nf.slice_axis(q.f["mu"], 1, Dy, Dy + Dx)
+        _, _, Ekk = kernel_expectations(c, Sxx, mx, Dx)
+        K = nf.einsum("oyk,oyw,owl,rkl->r", Mk, L, Mk, Ekk)
+        ref = nf.scale(nf.add(nf.add(nf.add(Q, nf.scale(lin, -2)), K), nf.add(lds, nf.const(Dy * LOG2PI))), D(-1) / 2)
+        return nf.diff(got, ref, what="integrate_log_conditional (feature model)"), dict(funcs=funcs_of(I))
+    return Ob(f"logcond/{cls}", run,
+              "integrate_log_conditional(q) == E_q[ln N(y; M_lin x + M_k k(x) + b, Sigma)]: Wick for the polynomial part, product-measure mass / mean for E[k g(z)] (kernels embedded in (y,x)), x-marginal for E[k k']",
+              f"gaussian_toolbox/approximate_conditional.py::{cls}.integrate_log_conditional", group="feature")
+
+
+def feature_logcond_y_ob(cls, as_callable):
+    def run():
+        from .approx import make_approx
+        I = build.new_interp()
+        c = make_approx(I, cls, "c")
+        R, Dy, Dx, Dk = sym("R"), sym("Dy"), sym("Dx"), sym("Dk")
+        px = build.pdf(I, R, Dx, "px")
+        y = build.points("y", R, Dy)
+        if as_callable:
+            got = I.call(I.call_method(c, "integrate_log_conditional_y", [px]), [y], {})
+        else:
+            got = I.call_method(c, "integrate_log_conditional_y", [px], dict(y=y))
+        M, b, L, lds = c.f["M"], c.f["b"], c.f["Lambda"], c.f["ln_det_Sigma"]
+        Mlin = nf.slice_axis(M, 2, 0, Dx)
+        Mk = nf.slice_axis(M, 2, Dx, Dx + Dk)
+        LM = nf.einsum("oyw,owx->oyx", L, Mlin)
+        Lb = nf.einsum("oyw,ow->oy", L, b)
+        Q0 = _inner([(Mlin, b), (LM, Lb)], px.f["mu"], px.f["Sigma"])
+        Ek, Ekx, Ekk = kernel_expectations(c, px.f["Sigma"], px.f["mu"], Dx)
+        cross = nf.add(nf.einsum("oyk,oyx,rkx->r", Mk, LM, Ekx), nf.einsum("oyk,oy,rk->r", Mk, Lb, Ek))
+        K = nf.einsum("oyk,oyw,owl,rkl->r", Mk, L, Mk, Ekk)
+        Emean = nf.add(nf.add(nf.einsum("oyx,rx->ry", Mlin, px.f["mu"]), b), nf.einsum("oyk,rk->ry", Mk, Ek))
+        yLy = nf.einsum("ry,oyw,rw->r", y, L, y)
+        yLm = nf.einsum("ry,oyw,rw->r", y, L, Emean)
+        quad = nf.add(nf.add(nf.add(yLy, nf.scale(yLm, -2)), nf.add(Q0, nf.scale(cross, 2))), K)
+        ref = nf.scale(nf.add(quad, nf.add(lds, nf.const(Dy * LOG2PI))), D(-1) / 2)
+        return nf.diff(got, ref, what="integrate_log_conditional_y (feature model)"), dict(funcs=funcs_of(I))
+    return Ob(f"logcond_y/{cls}/{'callable' if as_callable else 'y'}", run,
+              "integrate_log_conditional_y(p_x)(y) == E_{p(x)}[ln N(y; M_lin x + M_k k(x) + b, Sigma)]", f"gaussian_toolbox/approximate_conditional.py::{cls}.integrate_log_conditional_y", group="feature")
+
+
 def obligations(tier):
     prog = model.load()
     obs = []
+    for cls in ("LRBFGaussianConditional", "LSEMGaussianConditional"):
+        obs.append(feature_logcond_ob(cls))
+        for cal in (False, True):
+            obs.append(feature_logcond_y_ob(cls, cal))
     for mk in ("cold", "warm", "pdf"):
         for fk in ("ConjugateFactor", "OneRankFactor", "LinearFactor", "ConstantFactor", "GaussianMeasure", "GaussianPDF"):
             for fb in ("R", "1"):
@@ -116,7 +235,7 @@ def obligations(tier):
     return obs
 
 
-FLOORS = {"group:logfactor": 36, "group:logcond": 4, "group:logcond_y": 16}
+FLOORS = {"group:feature": 6, "group:logfactor": 36, "group:logcond": 4, "group:logcond_y": 16}
 LEVEL = "proof"
 EXPLANATION = ("_integrate_log_factor for every factor kind x batch; integrate_log_conditional / integrate_log_conditional_y of the linear, diagonal and identity-mean "
                "conditionals against Wick-generated expectations for an ARBITRARY Gaussian q / p(x). RBF / squared-exponential feature models are not decided here "
